@@ -1,3 +1,8 @@
+pub mod c01;
+pub mod c02;
+pub mod c09;
 pub mod c10;
 pub mod c11;
 pub mod c12;
+pub mod c20;
+pub mod hist;
